@@ -261,10 +261,16 @@ def r3_redaction(cx):
         out = {}
         if isinstance(elt, ast.Call) and isinstance(elt.func, ast.Name) and elt.func.id != "re" and len(elt.args) == 2 and [U(a) for a in elt.args] == [pv, line_p]:
             # find(pat, line) with find chosen by mode
-            fd_ = [a for a in walk_body(fn.body) if isinstance(a, ast.Assign) and U(a.targets[0]) == elt.func.id]
-            if len(fd_) != 1 or not isinstance(fd_[0].value, ast.IfExp) or U(fd_[0].value.test) != "self._regex":
+            fv = feat.resolve_const(pm, fn, elt.func)
+            if not isinstance(fv, ast.IfExp) or U(fv.test) != "self._regex":
                 return None
-            for mode, f in ((True, fd_[0].value.body), (False, fd_[0].value.orelse)):
+            for mode, f in ((True, fv.body), (False, fv.orelse)):
+                f = feat.resolve_const(pm, None, f)
+                if isinstance(f, ast.Name) and pm.has(f.id) and isinstance(pm.get(f.id), FUNC_TYPES):
+                    g_ = pm.get(f.id)
+                    b_ = [s_ for s_ in g_.body if not (isinstance(s_, ast.Expr) and isinstance(s_.value, ast.Constant))]
+                    if len(g_.args.args) == 2 and len(b_) == 1 and isinstance(b_[0], ast.Return):
+                        f = ast.Lambda(args=g_.args, body=b_[0].value)
                 if U(f) == "re.search":
                     out[mode] = "re.search(P, line)"
                 elif isinstance(f, ast.Lambda) and len(f.args.args) == 2 and U(f.body) == "%s in %s" % (f.args.args[0].arg, f.args.args[1].arg):
@@ -438,8 +444,9 @@ def r6_global_substitution(cx):
     fp = pw.func("Password.parse_line", "C08.R6")
     subs = feat.sub_calls(fp.body)
     lp = [s_ for s_ in fp.body if isinstance(s_, ast.For)]
-    ok = len(subs) == 1 and subs[0][4] is None and const_str(subs[0][2]) is not None and bool(lp) and U(subs[0][1]) == U(lp[0].target)
-    tmpl = const_str(subs[0][2]) if subs else ""
+    tnode = feat.resolve_const(pw, fp, subs[0][2]) if subs else None
+    ok = len(subs) == 1 and subs[0][4] is None and const_str(tnode) is not None and bool(lp) and U(subs[0][1]) == U(lp[0].target)
+    tmpl = const_str(tnode) if subs else ""
     import re as _re
     refs = set(_re.findall(r"\\(\d)", tmpl or ""))
     cx.require(ok and refs == set(["1", "2"]) and "\\3" not in (tmpl or ""), subs[0][0] if subs else fp,
